@@ -693,7 +693,7 @@ pub fn modulo(dividend_value: &Value, divisor_value: &Value) -> Value {
       if divisor.abs() == FeelNumber::zero() {
         value_null!("[core::modulo] division by zero")
       } else {
-        crate::builders::finite_number_or_null(dividend - divisor * (dividend / divisor).floor(), "modulo")
+        crate::builders::finite_number_or_null(dividend % divisor, "modulo")
       }
     } else {
       invalid_argument_type!("modulo", "number", divisor_value.type_of())
